@@ -169,8 +169,8 @@ Example ex_rejections :
   ex_bind 9 ex_aliases [UTag (None, s_N) no_a true []] = inl ExContextForbidden /\
   ex_bind 9 ex_aliases [UTag (None, s_Lower) no_a true [URaw [97]; UTag (Some s_Alias, s_N) no_a true [URaw [98]]]]
     = inl ExContextForbidden /\
-  ex_bind 30 ex_aliases [tag0 s_Loop] = inl ExTagConfiguration /\
-  ex_bind 30 ex_aliases [URaw [97]; tag0 s_Ping] = inl ExTagConfiguration /\
+  ex_bind 30 ex_aliases [tag0 s_Loop] = inl ExTemplateSyntax /\
+  ex_bind 30 ex_aliases [URaw [97]; tag0 s_Ping] = inl ExTemplateSyntax /\
   ex_bind 30 ex_aliases [tag0 s_Bad] = inl ExUnknownName /\
   inline_list ex_reg 30 ex_aliases [tag0 s_Loop] = None.
 Proof. vm_compute. repeat split; reflexivity. Qed.
